@@ -350,6 +350,44 @@ Fixpoint lookup_all (xs : list nat) (en : env) : option (list value) :=
   | [] => Some []
   | x :: r => match lookup x en, lookup_all r en with Some v, Some vs => Some (v :: vs) | _, _ => None end
   end.
+(* ---- template calls: evaluation of the arguments in the caller's namespace (call.py, base.py argumentize) ---- *)
+Definition eval_arg (L : env) (a : arg) : option value :=
+  match a with
+  | ARule r => Some (VRule r)                    (* a rule function *)
+  | ALocal x => lookup x L                       (* a local of the caller: value or parser *)
+  | APy p => eval_py L p                         (* inline Python *)
+  | AStrLit sl sk => Some (VLit sl sk)           (* _wrap_string_literal: a str that is also a parser *)
+  | AFun fid fv =>
+      (* the lifted argument function takes [ctx,] _text, _pos and its sorted free variables; with no
+         free variable the bare function is passed, otherwise _ParseFunction(func, <their values>, ()) *)
+      match lookup_all fv L with
+      | Some vals => Some (VClos fid vals)
+      | None => None                             (* unbound captured name *)
+      end
+  end.
+(* positional arguments bind the parameters in order, keyword arguments by name; None = TypeError *)
+Fixpoint bind_args (L : env) (ps : list nat) (args : list (option nat * arg)) (acc : env) : option env :=
+  match args with
+  | [] => match ps with [] => Some acc | _ => None end
+  | (None, a) :: args' =>
+      match ps, eval_arg L a with
+      | p :: ps', Some v => bind_args L ps' args' ((p, v) :: acc)
+      | _, _ => None
+      end
+  | (Some k, a) :: args' =>
+      if existsb (Nat.eqb k) ps then
+        match eval_arg L a with
+        | Some v => bind_args L (filter (fun q => negb (Nat.eqb q k)) ps) args' ((k, v) :: acc)
+        | None => None
+        end
+      else None
+  end.
+Definition call_target (L : env) (callee : nat + nat) : option nat :=
+  match callee with
+  | inl r => Some r
+  | inr x => match lookup x L with Some (VRule r) => Some r | _ => None end
+  end.
+
 (* a member contributes a constructor argument iff it is named and not omitted *)
 Definition field_name (name : option nat) (isfield : bool) : option nat :=
   match name with Some x => if isfield then Some x else None | None => None end.
@@ -713,53 +751,13 @@ Fixpoint exec (n : nat) (e : expr) (s : st) : out :=
                 | None => Stuck 24
                 end
     | Call callee args =>
-        let eval_arg (a : arg) : option value :=
-            match a with
-            | ARule r => Some (VRule r)
-            | ALocal x => lookup x (locals s)
-            | APy p => eval_py (locals s) p
-            | AStrLit sl sk => Some (VLit sl sk)
-            | AFun fid fv =>
-                match (fix all (l : list nat) : option (list value) :=
-                         match l with [] => Some [] | x :: l' =>
-                           match lookup x (locals s), all l' with Some v, Some r => Some (v :: r) | _, _ => None end end) fv with
-                | None => None                                         (* unbound captured name *)
-                | Some vals =>
-                    (* argumentize: the lifted function takes [ctx,] _text, _pos and its sorted free
-                       variables; with no free variable the bare function is passed, otherwise
-                       _ParseFunction(func, <values of the free variables>, ()) *)
-                    Some (VClos fid vals)
-                end
-            end in
-        let target : option nat :=
-            match callee with
-            | inl r => Some r
-            | inr x => match lookup x (locals s) with Some (VRule r) => Some r | _ => None end
-            end in
-        match target with
+        match call_target (locals s) callee with
         | None => Stuck 25
         | Some r =>
           match nth_error g r with
           | None => Stuck 26
           | Some (ps, b) =>
-            (* positional arguments first, then keywords by name *)
-            let fix bind_args (ps : list nat) (args : list (option nat * arg)) (acc : env) : option env :=
-                match args with
-                | [] => match ps with [] => Some acc | _ => None end
-                | (None, a) :: args' =>
-                    match ps, eval_arg a with
-                    | p :: ps', Some v => bind_args ps' args' ((p, v) :: acc)
-                    | _, _ => None
-                    end
-                | (Some k, a) :: args' =>
-                    if existsb (Nat.eqb k) ps then
-                      match eval_arg a with
-                      | Some v => bind_args (filter (fun q => negb (Nat.eqb q k)) ps) args' ((k, v) :: acc)
-                      | None => None
-                      end
-                    else None
-                end in
-            match bind_args ps args [] with
+            match bind_args (locals s) ps args [] with
             | Some en => ret (exec n b (mk0 false VNone (pos s) en))
             | None => Stuck 27
             end
